@@ -10,15 +10,16 @@ from interp import Interp, Obj, Cell, Thrown, Ptr, Region, ITE, Cond, Unsupporte
 from kernels import make_suv, flatten_ite
 from poly import Poly, apply_func, atom_arg, atom_of
 from stdmodel import StdHooks, make_vector
+from gslmodel import GslHooks
 import basis
 import c03
 
 DIMS = basis.DIMS
 
 
-class FilterHooks(StdHooks):
+class FilterHooks(GslHooks):
     def __init__(self):
-        StdHooks.__init__(self)
+        GslHooks.__init__(self)
         self.assumed = []
         self.events = []
 
@@ -29,7 +30,7 @@ class FilterHooks(StdHooks):
             return this_cell
         if name == 'printf':
             return 0
-        return StdHooks.external_call(self, it, name, node, args, this_cell)
+        return GslHooks.external_call(self, it, name, node, args, this_cell)
 
     def assume(self, it, cond, node):
         self.assumed.append((cond, it.loc(node)))
